@@ -207,11 +207,11 @@ func genRecv(r *hv.Rand) {
 		rec(nil)
 	}
 	exh("recv-exhaustive-2+fin+ack", 2, []int64{1, 2, 3, 0}, hv.Scale(4, 6))
-	exh("recv-exhaustive-3+fin", 3, []int64{1, 2, 3, 4}, hv.Scale(5, 7))
+	exh("recv-exhaustive-3+fin", 3, []int64{1, 2, 3, 4}, hv.Scale(4, 6))
 	exh("recv-exhaustive-2+fin+read", 2, []int64{1, 2, 3, -1}, hv.Scale(4, 6))
 
 	// (2) random arrival orders: reorder, duplicate, omit, stale, interleaved reads
-	for k := 0; k < hv.Scale(250, 4000); k++ {
+	for k := 0; k < hv.Scale(250, 1200); k++ {
 		n := uint64(1 + r.Intn(hv.Scale(40, 200)))
 		st := &stream{first: 1, n: n, salt: r.U64() % 1000, oracle: true, complete: true}
 		var sc []rop
@@ -246,7 +246,7 @@ func genRecv(r *hv.Rand) {
 	}
 
 	// (3) window edge: frames at windowStart+999 .. +1002, then in-order fill
-	for k := 0; k < hv.Scale(4, 60); k++ {
+	for k := 0; k < hv.Scale(4, 16); k++ {
 		n := uint64(1003 + r.Intn(40))
 		st := &stream{first: 1, n: n, salt: r.U64() % 1000, oracle: true, complete: k%2 == 0}
 		var sc []rop
@@ -269,7 +269,7 @@ func genRecv(r *hv.Rand) {
 
 	// (4) frame numbers around the 2^32 wrap and the 2^31 decision boundary of unwrapFrameNo
 	starts := []uint64{1<<32 - 3, 1<<32 - 1, 1 << 32, 1<<32 + 1, 1<<31 - 2, 1 << 31, 1<<31 + 1<<32 - 2, 3<<32 - 2, 1<<33 + 1<<31 - 1, 1<<40 - 5, 1<<63 - 7}
-	for k := 0; k < hv.Scale(120, 2000); k++ {
+	for k := 0; k < hv.Scale(120, 600); k++ {
 		first := hv.Pick(r, starts) - uint64(r.Intn(3))
 		n := uint64(4 + r.Intn(12))
 		st := &stream{first: first, n: n, salt: r.U64() % 1000, oracle: true, complete: true}
@@ -311,7 +311,7 @@ func genRecv(r *hv.Rand) {
 	// (5) beyond the legitimate set (model comparison only): frames after FIN, frames after a local
 	// Close, ACK-flagged data, FIN carrying data; payloads stay a function of the unwrapped number so
 	// that the heap's tie-breaking between equal priorities is unobservable
-	for k := 0; k < hv.Scale(150, 2000); k++ {
+	for k := 0; k < hv.Scale(150, 600); k++ {
 		first := hv.Pick(r, []uint64{1, 1, 1, 1<<32 - 2, 1<<31 - 1})
 		n := uint64(2 + r.Intn(8))
 		st := &stream{first: first, n: n, salt: r.U64() % 1000}
@@ -353,10 +353,12 @@ func genRecv(r *hv.Rand) {
 // unwrapFrameNo alone
 func genUnwrap(r *hv.Rand) {
 	acks := []uint64{0, 1, 2, 1<<31 - 1, 1 << 31, 1<<31 + 1, 1<<32 - 1, 1 << 32, 1<<32 + 1, 1<<32 + 1<<31 - 1, 1<<32 + 1<<31, 1<<32 + 1<<31 + 1,
-		2<<32 - 1, 2 << 32, 5<<32 + 77, 1<<63 - 1, 1 << 63, 1<<64 - 1<<32 - 2, 1<<64 - 1<<32 - 1}
+		2<<32 - 1, 2 << 32, 5<<32 + 77, 1<<63 - 1, 1 << 63, 1<<64 - 1<<32 - 2, 1<<64 - 1<<32 - 1,
+		1 << 30, 1<<32 + 1<<30 + 5, 1<<32 + 1<<31 - 1<<29, 3<<32 + 1<<31 + 1<<30, 7<<32 + 3<<29}
 	for _, a := range acks {
 		fs := []uint32{0, 1, 1<<31 - 1, 1 << 31, 1<<31 + 1, 1<<32 - 1, uint32(a), uint32(a) + 1, uint32(a) - 1,
-			uint32(a) + 1<<31 - 1, uint32(a) + 1<<31, uint32(a) + 1<<31 + 1, uint32(a) + 1000, uint32(a) - 1000}
+			uint32(a) + 1<<31 - 1, uint32(a) + 1<<31, uint32(a) + 1<<31 + 1, uint32(a) + 1000, uint32(a) - 1000,
+			uint32(a) + 1<<30, uint32(a) - 1<<30, uint32(a) + 1<<30 + 1<<29, uint32(a) - 1<<30 - 1<<29, uint32(a) + 1<<31 - 2, uint32(a) - 1<<31 + 2}
 		for j := 0; j < hv.Scale(4, 40); j++ {
 			fs = append(fs, uint32(r.U64()))
 		}
